@@ -292,7 +292,10 @@ def judge_case(r, T, prop):
         T.corr.append(("protocol", "case %d: %d queries, %d answers, %d results" % (cid, len(qs), len(answers), len(results)), {"case": r["line"]}))
         return
     byq = collections.defaultdict(dict)
-    for q, a, res in zip(qs, answers, results):
+    plans = (field(parse_sexp(r["req"])[2:], "queries") or []) if r.get("req") else []
+    for k, (q, a, res) in enumerate(zip(qs, answers, results)):
+        q["plans"] = plans[k] if k < len(plans) else None
+        q["pk"] = int(field(c, "pk")[0]) if field(c, "pkdecl")[0] == "col" and field(c, "pk")[0] != "none" else None
         byq[q["qid"]][q["kind"]] = (q, a, res)
     for qid, group in sorted(byq.items()):
         judge_query(r, T, prop, qid, group, nrs)
@@ -312,9 +315,11 @@ def judge_query(r, T, prop, qid, group, nrs):
     replay = {"case": r["line"], "qid": qid}
     nkeys, desc = qU["nkeys"], qU["desc"]
     implU = out_rows(field(rU, "on")[0])
-    if aU[1] != "ok" or a[1] != "ok" or ("A" in group and group["A"][1][1] != "ok"):
-        T.dist["unsupported-plan"] += 1
-        return
+    # plans outside the modelled subset (joins, aggregation, windows): the model-free oracle still
+    # judges them; only the model comparisons are skipped
+    modelled = not (aU[1] != "ok" or a[1] != "ok" or ("A" in group and group["A"][1][1] != "ok"))
+    if not modelled:
+        T.dist["plan outside the modelled subset (oracle only)"] += 1
     if implU is None:
         T.findings.append(("unexplained:unordered-query-failed", "case %d: %s failed" % (cid, qU["sql"]), replay))
         return
@@ -322,6 +327,9 @@ def judge_query(r, T, prop, qid, group, nrs):
 
     def keyof(row):
         return tuple(row[len(row) - nkeys:]) if nkeys else ()
+
+    if not modelled:
+        return judge_query_oracle_only(r, T, qid, group, nrs, implU, keyof)
 
     # ---- U: bags ------------------------------------------------------------------------------
     mU = model_rows(field(aU, "exec")[0])
@@ -436,6 +444,122 @@ def judge_query(r, T, prop, qid, group, nrs):
     T.dist["plan:" + ("sort-kept" if (field(a, "sorted") or ["true"])[0] == "true" else ("sort-removed" if nkeys else "no-order-by"))] += 1
     for t in field(a, "tags") or []:
         T.dist["tag:" + t] += 1
+
+
+def plan_ops(p, acc=None):
+    """operator heads of a plan s-expression, outermost first"""
+    acc = [] if acc is None else acc
+    if isinstance(p, list) and p and isinstance(p[0], str):
+        acc.append(p[0])
+        for x in p[1:]:
+            plan_ops(x, acc)
+    return acc
+
+
+def find_nodes(p, head, acc=None):
+    acc = [] if acc is None else acc
+    if isinstance(p, list) and p:
+        if p[0] == head:
+            acc.append(p)
+        for x in p[1:]:
+            find_nodes(x, head, acc)
+    return acc
+
+
+def order_mechanism(q):
+    """Signature of a dropped ORDER BY from the reported plans (no model for joins): which operator
+    of the optimized plan the planner's order analysis trusted."""
+    pl = q.get("plans")
+    if not pl or len(pl) < 3:
+        return None
+    bound, opt = pl[1], pl[2]
+    top = []
+    p = opt
+    while isinstance(p, list) and p and p[0] in ("proj", "filter", "limit", "order", "topn", "window"):
+        top.append(p[0])
+        p = p[-1]
+    if "order" in top or "topn" in top:
+        return None             # a sort is executed: not an order-analysis matter
+    if not (isinstance(p, list) and p):
+        return None
+    if p[0] in ("join", "hashjoin") and q.get("pk") is not None:
+        # a merge join on the two primary keys is in the same e-class: ExprAnalysis::merge takes
+        # the MAX of the members' order properties, useless-order fires for the class, and the
+        # extractor then picks this (unordered) member
+        refs = []
+
+        def cols(x):
+            if isinstance(x, str):
+                if x.startswith("$"):
+                    refs.append(x)
+            else:
+                for y in x[1:]:
+                    cols(y)
+        for part in ((p[2],) if p[0] == "join" else (p[3], p[4])):
+            cols(part)
+        if len(refs) >= 2 and all(x.split(".")[-1] == str(q["pk"]) for x in refs) and len({x.split(".")[0] for x in refs}) == 2:
+            return "order:eclass-order-max"
+    if p[0] == "mergejoin":
+        # an input ordered by MORE than the join key (an `order` node with >= 2 keys below the join)
+        for side in (p[5], p[6]):
+            for o in find_nodes(side, "order"):
+                if isinstance(o[1], list) and len(o[1]) > 2:
+                    return "order:mergejoin-input-order-longer-than-join-key"
+        return "order:mergejoin-%s" % p[1]
+    return "order:%s" % p[0]
+
+
+def judge_query_oracle_only(r, T, qid, group, nrs, implU, keyof):
+    """Joins, aggregation, windows: no model; ORDER BY = sorted permutation of the unordered result,
+    LIMIT = slice, judged on the implementation's own results."""
+    cid = r["id"]
+    qU, aU, rU = group["U"]
+    q, a, res = group["main"]
+    nkeys, desc = qU["nkeys"], qU["desc"]
+    replay = {"case": r["line"], "qid": qid}
+    if not nkeys:
+        return
+    F = [(keyof(row), row) for row in sorted(implU, key=lambda row: order_key(keyof(row), desc))]
+
+    def ref(withkeys):
+        return [(k, v if withkeys else v[:len(v) - nkeys]) for k, v in F]
+
+    variants = []
+    if "A" in group:
+        qA, aA, rA = group["A"]
+        variants.append(("A", qA, field(rA, "on")[0], None, 0, True))
+    variants.append(("main", q, field(res, "on")[0], q["limit"], q["offset"] or 0, False))
+    variants.append(("off", q, field(res, "off")[0], q["limit"], q["offset"] or 0, False))
+    ops = plan_ops(q["plans"][2]) if q.get("plans") and len(q["plans"]) > 2 else []
+    for o in ("mergejoin", "hashjoin", "join", "sortagg", "hashagg", "window"):
+        if o in ops:
+            T.dist["oracle-only plan with " + o] += 1
+    fails = {}
+    for which, qq, implo, lim, off, withkeys in variants:
+        impl = out_rows(implo)
+        sql = qq["sql"] + (" [optimizer off]" if which == "off" else "")
+        T.ivo["compared"] += 1
+        if impl is None:
+            if which == "off":
+                T.dist["optimizer-off run failed (oracle-only plan)"] += 1
+                T.ivo["compared"] -= 1
+                continue
+            fails[which] = (qq, sql, "statement failed", implo)
+            continue
+        got = [tuple(x) for x in impl]
+        rf = ref(withkeys)
+        if not slice_equiv(rf, got, off, lim):
+            want = len(rf[off:]) if lim is None else len(rf[off:off + lim])
+            why = ("returns %d rows, expected %d" % (len(got), want)) if len(got) != want else \
+                "does not return rows %d.. of the key order (got %s)" % (off + 1, got[:8])
+            fails[which] = (qq, sql, why, implo)
+        elif got and nrs >= 2:
+            T.nontrivial.add((cid, sql))
+    for which, (qq, sql, why, implo) in fails.items():
+        T.ivo["disagree"] += 1
+        sig = order_mechanism(qq) if which != "off" and "off" not in fails else None
+        T.findings.append((sig or ("unexplained:" + which), "%s %s (case %d, %d row-sets)" % (sql, why, cid, nrs),
+                           dict(replay, sql=sql, impl=implo, plans=qq.get("plans"))))
 
 
 def judge_scan(r, T, prop, sreq, sm, si, nrs):
